@@ -576,6 +576,11 @@ def run_mutants(pid, res, mutants, parts=("include", "src", "cmake", "CMakeLists
     for mid, rc, tail, got in results:
         m = by[mid]
         if rc == "stale":
+            if m.get("fixes"):
+                # the repair this control applies has since been committed to the tree ("fix:" commit): nothing to apply
+                summary[mid] = "fix-in-tree"
+                res.ok("SELFTEST", mid, {"status": "fix already in tree"})
+                continue
             summary[mid] = "stale"
             bad.append((mid, "stale anchor", ""))
             continue
